@@ -130,7 +130,7 @@ def paint_attrs(rng, F, own=True):
     if F.strokes and rng.random() < 0.5:
         at.append(("stroke", rng.choice(COLORS + ["none"])))
         if rng.random() < 0.7:
-            at.append(("stroke-width", rng.choice(["1", "2", "3.5", "0.5", "6"])))
+            at.append(("stroke-width", rng.choice(["1", "2", "3.5", "0.5", "6", "1", "2", "3.5", "0.5", "6", "0"])))   # 0: no stroke at all
         if rng.random() < 0.3:
             at.append(("stroke-linecap", rng.choice(["butt", "round", "square"])))
         if rng.random() < 0.3:
@@ -370,6 +370,8 @@ class Gen:
                     at += ' %s="%s"' % (n_, c(0.2, 0.8))
             if rng.random() < 0.3:
                 at += ' fx="%s" fy="%s"' % (c(0.3, 0.7), c(0.3, 0.7))
+            if rng.random() < 0.12:
+                at += ' fr="%s"' % c(0.02, 0.1)      # focal radius (SVG 2): a dataclass field, inherited from templates like the rest
         if units:
             at += ' gradientUnits="%s"' % units
         if rng.random() < 0.4:
